@@ -446,7 +446,8 @@ class C12(Check):
             # besides the seeded switches: threads are parked inside a few functions of the framework (chosen per plan)
             # whenever they pass through them -- tables are filled and recycled in small functions
             fnames = solo_funcs(cfg, dict(make_request('br', 11, 'calib'), name='T0'))
-            hot = rng.sample(fnames, min(len(fnames), 4))
+            # (every function of the catalogue is the focus of some plan: plan k always parks threads in function k mod n)
+            hot = [fnames[k % len(fnames)]] + rng.sample([f for f in fnames if f != fnames[k % len(fnames)]], min(len(fnames) - 1, 3))
             bits = [1 if rng.random() < 0.4 else 0 for _ in range(4000)]
             yield {'world': 'threads', 'seed': base_seed, 'config': cfg, 'marathon': seqs, 'granularity': 'line',
                    'order': names, 'preempts': pre, 'mode': 'marathon', 'requests': [], 'hot_funcs': hot, 'hot_bits': bits}
